@@ -7,9 +7,17 @@
 //	        -> Canon(UnmarshalFromJSON(MarshalToJSON(v))) | "error"   (what an observer receives)
 //	wiredoc payload[0] = JSON text
 //	        -> Canon(UnmarshalFromJSON(text)) | "error"
+//	pin     payload[0] = arr.ai program (typically dec(enc(x))), payload[1] = arr.ai source of the expected value
+//	        -> "rejected" when the program is an error, "same" when Canon(result) == Canon(expected)
+//	        (NaN is compared as NaN, -0 as 0), "changed:<result>" otherwise.  States laws of the form
+//	        "encode(x) is an error or decode(encode(x)) = x" for values outside the Lean model (non-finite numbers).
+//	wirenf  payload[0] = arr.ai source of a value -> "rejected" (MarshalToJSON/UnmarshalFromJSON panics or errors),
+//	        "same" or "changed:<result>"
 package main
 
 import (
+	"fmt"
+
 	"github.com/arr-ai/arrai/rel"
 
 	"verif/harness/hlib"
@@ -61,6 +69,43 @@ func init() {
 			return "error"
 		}
 		return hlib.Canon(v)
+	})
+}
+
+func init() {
+	hlib.Register("pin", func(p []string) string {
+		want, err := hlib.EvalSrc(p[1])
+		if err != nil {
+			return "harness-error:expected:" + err.Error()
+		}
+		got, err := hlib.EvalSrc(p[0])
+		if err != nil {
+			return "rejected"
+		}
+		if hlib.Canon(got) == hlib.Canon(want) {
+			return "same"
+		}
+		return "changed:" + clip(hlib.Canon(got))
+	})
+	hlib.Register("wirenf", func(p []string) (res string) {
+		v, err := hlib.EvalSrc(p[0])
+		if err != nil {
+			return "harness-error:source:" + err.Error()
+		}
+		defer func() {
+			if r := recover(); r != nil {
+				_ = fmt.Sprint(r)
+				res = "rejected"
+			}
+		}()
+		v2, err := rel.UnmarshalFromJSON(rel.MarshalToJSON(v))
+		if err != nil {
+			return "rejected"
+		}
+		if hlib.Canon(v2) == hlib.Canon(v) {
+			return "same"
+		}
+		return "changed:" + clip(hlib.Canon(v2))
 	})
 }
 
